@@ -58,11 +58,12 @@ Definition c03_delegating_nonrelative_proved : list string :=
   [ "DecodeVisualSampleEntry"  (* C03_vse_pair_agree_canonical *)
   ; "DecodeTrep"               (* C03_counted_pairs_agree_canonical *)
   ; "DecodeWvtt"               (* C03_entry_pairs_agree_canonical *)
-  ; "DecodeEvte"; "DecodeStpp" (* C03_xentry_pairs_agree_canonical *) ].
+  ; "DecodeEvte"; "DecodeStpp" (* C03_xentry_pairs_agree_canonical *)
+  ; "DecodeMeta"               (* C03_meta_pair_agree_canonical *) ].
 (* delegating pairs whose SR decoder is NOT position-relative (SetPos, GetPos outside differences, LookAhead, children decoded with
    DecodeBoxSR, a decoder table): the delegation shape is still REQUIRED of them; that the SR decoder behaves the same on a private body reader is explored *)
 Definition c03_delegating_nonrelative_explored : list string :=
-  [ "DecodeEsds"; "DecodeMeta"; "DecodeSgpd" ].
+  [ "DecodeEsds"; "DecodeSgpd" ].
 (* container twins whose SR decoder additionally returns sr.AccError() (edts sinf stbl): on canonical strings the test never fires
    (C03_twin_accerr_canonical); none is left as explored *)
 Definition c03_twin_accerr_explored : list string := [ ].
